@@ -1,11 +1,13 @@
 use crate::fw::*;
 pub mod c09;
 pub mod c11;
+pub mod c17;
 
 pub fn run(prop: &str, tier: Tier) -> Report {
     match prop {
         "C09" => c09::run(tier),
         "C11" => c11::run(tier),
+        "C17" => c17::run(tier),
         _ => {
             eprintln!("unknown property {prop}");
             std::process::exit(2)
@@ -16,6 +18,7 @@ pub fn replay(prop: &str, _tier: Tier, case: &serde_json::Value) -> Vec<Violatio
     match prop {
         "C09" => c09::replay(case),
         "C11" => c11::replay(case),
+        "C17" => c17::replay(case),
         _ => {
             eprintln!("unknown property {prop}");
             std::process::exit(2)
